@@ -42,12 +42,15 @@ def image_pair(draw, min_rows=5, max_rows=12, min_cols=6, max_cols=14, max_val=2
     hi = draw(st.sampled_from([max_val, max_val, 3, 255, 4095])) if max_val >= 20 else max_val
     px = st.integers(0, hi)
     left = draw(st.lists(st.lists(px, min_size=tw, max_size=tw), min_size=th, max_size=th))
-    mode = draw(st.sampled_from(["indep", "shift", "shift"]))
+    mode = draw(st.sampled_from(["indep", "shift", "shift", "planes"]))
     p = {"H": H, "W": W, "left": left, "mode": mode}
     if mode == "indep":
         p["right"] = draw(st.lists(st.lists(px, min_size=tw, max_size=tw), min_size=th, max_size=th))
     else:
         p["shift"] = draw(st.integers(-3, 3))
+        if mode == "planes":  # two fronto-parallel planes: columns right of `split` move by another shift
+            p["shift2"] = draw(st.integers(-3, 3))
+            p["split"] = draw(st.integers(1, W - 1))
         p["fill"] = draw(st.lists(px, min_size=4, max_size=4))
         npert = draw(st.integers(0, 8))
         p["pert"] = [[draw(st.integers(0, H - 1)), draw(st.integers(0, W - 1)), draw(px)] for _ in range(npert)]
@@ -98,7 +101,7 @@ def materialise_pair(p):
         right = np.empty_like(left)
         fill = p["fill"]
         for c in range(W):
-            src = c - s
+            src = c - (p["shift2"] if (p["mode"] == "planes" and c >= p["split"]) else s)
             if 0 <= src < W:
                 right[:, c] = left[:, src]
             else:
